@@ -293,6 +293,15 @@ func ValueSweeps() []SweepCase {
 				out = append(out, SweepCase{cfg, al, ops, "meta-type", fmt.Sprintf("%02X/%d", typ, n)})
 			}
 		}
+		// type bytes with the high bit set: outside the format, but the API builds
+		// them and a written value must still read back as it was (C01 only; the
+		// strict parser of C03 does not define them)
+		for typ := 0x80; typ <= 0xFF; typ++ {
+			pl := []byte{byte(typ), 0x01}
+			al := []Msg{{"note", []byte{0x93, 0x40, 0x41}}, {"meta", smf.MetaUndefined(byte(typ), pl)}}
+			ops := []Op{{Kind: OpAdd, D: 0, M1: 0}, {Kind: OpAdd, D: 1, M1: 1}, {Kind: OpAdd, D: 0, M1: 0}, {Kind: OpSMFAdd}}
+			out = append(out, SweepCase{cfg, al, ops, "meta-type-8bit", fmt.Sprintf("%02X", typ)})
+		}
 		// many events in one track (chunk bodies beyond 64 KiB, event counts beyond 65535)
 		for _, ne := range []int{255, 256, 257, 4095, 4096, 65535, 65536, 65537} {
 			al := []Msg{{"a", []byte{0x90, 0x40, 0x41}}, {"b", []byte{0x90, 0x41, 0x00}}, {"t", smf.MetaText("x")}}
@@ -324,6 +333,9 @@ func ValueSweeps() []SweepCase {
 // the uint32 range (maxDelta limits them for C03), payload lengths 0..300 and
 // around every VLQ width and block-size boundary for text, sysex, escape and
 // unknown meta. part/parts spread the work over processes.
+// Thorough is set by the checks that want the wider sweeps.
+var Thorough bool
+
 func ScalarSweeps(part, parts int, maxDelta uint64, f func(SweepCase)) {
 	al := FullAlphabet()
 	base := []Op{{Kind: OpAdd, D: 0, M1: 9}, {Kind: OpAdd, D: 1, M1: 0}, {Kind: OpAdd, D: 130, M1: 1}, {Kind: OpClose, D: 2}, {Kind: OpSMFAdd}}
@@ -354,6 +366,31 @@ func ScalarSweeps(part, parts int, maxDelta uint64, f func(SweepCase)) {
 					ops[pos].D = uint32(v)
 					for _, nors := range []bool{false, true} {
 						f(SweepCase{Cfg{Ctor: 0, NoRS: nors, TF: smf.MetricTicks(480)}, al, ops, "delta", v})
+					}
+				}
+			}
+		}
+	}
+	// deltas whose base-128 digits are all combinations of a few digit values
+	// (an encoder of its own in the writer may get any one digit position wrong)
+	digits := []uint64{0, 1, 0x2A, 0x55, 0x7F}
+	if Thorough {
+		digits = []uint64{0, 1, 2, 0x0F, 0x10, 0x2A, 0x3F, 0x40, 0x55, 0x6A, 0x7E, 0x7F}
+	}
+	n := 0
+	for _, d3 := range digits {
+		for _, d2 := range digits {
+			for _, d1 := range digits {
+				for _, d0 := range digits {
+					v := d3<<21 | d2<<14 | d1<<7 | d0
+					n++
+					if v > maxDelta || n%parts != part {
+						continue
+					}
+					for _, pos := range []int{0, 2} {
+						ops := []Op{{Kind: OpAdd, D: 3, M1: 0}, {Kind: OpAdd, D: 4, M1: 1}, {Kind: OpClose, D: 5}, {Kind: OpSMFAdd}}
+						ops[pos].D = uint32(v)
+						f(SweepCase{Cfg{Ctor: 0, NoRS: pos == 2, TF: smf.MetricTicks(480)}, al, ops, "delta-digits", int64(v)})
 					}
 				}
 			}
